@@ -21,6 +21,7 @@ def main(argv):
     faulthandler.register(signal.SIGUSR1, all_threads=True, chain=False)
     with open(spec_path) as fd:
         spec = json.load(fd)
+    cov = _start_coverage(os.environ.get('VERIF_COV'))
     res = Result()
     try:
         mon = importlib.import_module(f'vlib.monitors.{prop.lower()}')
@@ -32,7 +33,37 @@ def main(argv):
             + traceback.format_exc()[-1500:])
     with open(out_path, 'wb') as fd:
         pickle.dump(res.dump(), fd)
+    if cov is not None:
+        cov(f'{prop}-{spec.get("name")}')
     return 0
+
+
+def _start_coverage(outdir):
+    """VERIF_COV=<dir>: record which lines of lazy_dataset this shard executed
+    (sys.monitoring LINE events, each location disabled after its first hit, so
+    the cost is negligible).  Used by tools/coverage_map.py to find code the
+    workloads never drive; it plays no part in any verdict."""
+    if not outdir:
+        return None
+    import os
+    mon = sys.monitoring
+    tool = 4
+    mon.use_tool_id(tool, 'verif-cov')
+    hit = set()
+
+    def on_line(code, line):
+        fn = code.co_filename
+        if 'lazy_dataset' in fn and 'vlib' not in fn:
+            hit.add((os.path.basename(fn), line))
+        return mon.DISABLE
+    mon.register_callback(tool, mon.events.LINE, on_line)
+    mon.set_events(tool, mon.events.LINE)
+
+    def dump(name):
+        os.makedirs(outdir, exist_ok=True)
+        with open(os.path.join(outdir, name + '.json'), 'w') as fd:
+            json.dump(sorted(hit), fd)
+    return dump
 
 
 if __name__ == '__main__':
